@@ -60,11 +60,12 @@ pub tracked struct QCtx {
     pub ghost log: Seq<Sec>,
     pub ghost v_order: bool,        // every queue effect so far kept the FIFO discipline
     pub ghost v_conserve: bool,     // ... and neither lost nor duplicated a job
-    pub ghost v_state: bool,        // every state effect so far was a permitted transition for this thread
+    pub ghost v_take: bool,         // as a non-holder, this thread only ever took the run token from a free state and never changed a held state
+    pub ghost v_give: bool,         // as the holder, this thread only parked / released the queue the permitted ways (and never with a job in hand)
     pub ghost v_wake: bool,         // no section parked the queue over a remembered wake-up
 }
 
-pub open spec fn valid(c: QCtx) -> bool { c.v_order && c.v_conserve && c.v_state && c.v_wake }
+pub open spec fn valid(c: QCtx) -> bool { c.v_order && c.v_conserve && c.v_take && c.v_give && c.v_wake }
 
 /// the context of a thread that is not involved with the queue
 pub open spec fn fresh(c: QCtx) -> bool {
@@ -121,7 +122,7 @@ pub open spec fn step_state(c: QCtx, a: JobQueueCore, b: JobQueueCore) -> QCtx {
         else if s is WaitingForWake && t is Idle { c }
         else if s is Running && t is AwokenWhileRunning { c }
         else if s is WaitingForUnpark && t is Running { c }
-        else { QCtx { v_state: false, ..c } }
+        else { QCtx { v_take: false, ..c } }
     } else {
         if t is Panicked { QCtx { holds: false, ..c } }
         else if s is AwokenWhileRunning && t is Running { c }
@@ -130,7 +131,7 @@ pub open spec fn step_state(c: QCtx, a: JobQueueCore, b: JobQueueCore) -> QCtx {
         else if c.current is None && t is Idle { QCtx { holds: false, ..c } }
         else if c.current is None && t is WaitingForWake && (s is Running || c.latching) { QCtx { holds: false, latch_parked: c.latching, ..c } }
         else if c.current is None && t is WaitingForPoll && c.latching { QCtx { holds: false, latch_parked: true, poll_parked: true, ..c } }
-        else { QCtx { v_state: false, ..c } }
+        else { QCtx { v_give: false, ..c } }
     }
 }
 
